@@ -978,7 +978,15 @@ func init() {
 			}
 			for i := 0; i < r.n(3); i++ {
 				if r.chance(1, 4) {
-					rows = append(rows, do("addsep "+t))
+					sep := do("addsep " + t)
+					rows = append(rows, sep)
+					if c%5 == 2 {
+						// a separator is a row like any other for row-level callbacks: its own pre/post
+						// render callbacks fire in its place in the traversal (stored change C13-M skipped it)
+						forceWhen, forceTarget = []string{"pre", "post"}[(c/5)%2], "itself"
+						register("r:" + sep[1:])
+						forceWhen, forceTarget = "", ""
+					}
 				} else if r.chance(1, 4) {
 					// a row the table makes and attaches itself, filled afterwards
 					nr := do("appendnewrow " + t)
